@@ -548,6 +548,21 @@ def _replace_needs_successful_read(ctx):
                 ctx.ob("R7", f"{JSON}:{q}", f"`except {unparse(h.type) if h.type is not None else ''}` around the read of the old file ({', '.join(fam)}: a failing file-system call) does not lead on to the rename that replaces the file", not hit, key=f"{q}|read-failure-becomes-empty|{'+'.join(fam)}", where=loc(h), path=cfg.fmt_path(cfg.path_to(seen, hit[0])) if hit else None)
     if n == 0:
         raise AnalysisError(f"{JSON}: no guarded read of an old history file found in the rewriting operations")
+    # the reader the rewriting operations rely on keeps the two kinds of failure apart: a failing file-system call must reach
+    # them as OSError ("keep the file"), never relabelled as the content error they read as "corrupt, start empty"
+    LJ = "xonsh/lib/lazyjson.py"
+    lj = ctx.repo.module(LJ)
+    CONTENT_ERRORS = {"ValueError", "JSONDecodeError", "KeyError", "TypeError", "IndexError", "LookupError", "UnicodeDecodeError"}
+    n_h = 0
+    for q, fn in lj.functions():
+        for h in [x for x in walk_local(fn) if isinstance(x, ast.ExceptHandler)]:
+            names = {"BaseException"} if h.type is None else {x.id if isinstance(x, ast.Name) else x.attr for x in ast.walk(h.type) if isinstance(x, (ast.Name, ast.Attribute))}
+            if not (names & OSERROR_FAMILY):
+                continue
+            n_h += 1
+            relabel = [r for b_ in h.body for r in ast.walk(b_) if isinstance(r, ast.Raise) and r.exc is not None and ((isinstance(r.exc, ast.Call) and (call_name(r.exc) or "").split(".")[-1] in CONTENT_ERRORS) or (isinstance(r.exc, ast.Name) and r.exc.id in CONTENT_ERRORS))]
+            ctx.ob("R7", f"{LJ}:{q}", f"`except {unparse(h.type) if h.type is not None else ''}` does not re-raise a failing file-system call as a content error", not relabel, key=f"{q}|oserror-relabelled-as-content-error", where=loc(relabel[0]) if relabel else loc(h), detail=short(relabel[0], 60) if relabel else None)
+    ctx.ob("R7", LJ, f"{n_h} handler(s) for OSError-family exceptions in the lazy reader, none turns them into ValueError & co. (JsonHistoryFlusher.dump keeps the file on OSError and starts empty on ValueError)", True, key="lazyjson|scanned")
 
 META = {
     "technique": "static analysis: who-may-write + CFG dominance / failure-edge reachability over history/json.py and history/sqlite.py",
